@@ -404,7 +404,13 @@ func (c19Driver) Run(spec *simrt.Spec, agg *Agg, keep bool) *Outcome {
 			opens[a.Path]++
 		}
 	}
-	for p, n := range opens {
+	var openPaths []string
+	for p := range opens {
+		openPaths = append(openPaths, p)
+	}
+	sort.Strings(openPaths) // the verdict must not depend on map iteration in the oracle itself
+	for _, p := range openPaths {
+		n := opens[p]
 		if n > 1 && !dupPaths {
 			return fail("written-twice", "%s was opened for writing %d times in one call", p, n)
 		}
@@ -412,7 +418,13 @@ func (c19Driver) Run(spec *simrt.Spec, agg *Agg, keep bool) *Outcome {
 			return fail("foreign-path", "a file was written under %s, which is no entry's path", p)
 		}
 	}
-	for p, n := range be.ppCalls {
+	var ppPaths []string
+	for p := range be.ppCalls {
+		ppPaths = append(ppPaths, p)
+	}
+	sort.Strings(ppPaths)
+	for _, p := range ppPaths {
+		n := be.ppCalls[p]
 		if n > 1 && !dupPaths {
 			return fail("pp-twice", "%s was post-processed %d times", p, n)
 		}
@@ -458,7 +470,12 @@ func (c19Driver) Run(spec *simrt.Spec, agg *Agg, keep bool) *Outcome {
 	}
 	if perr == nil {
 		// no file that is not an entry (besides what was there before)
+		var diskPaths []string
 		for p := range res.Disk {
+			diskPaths = append(diskPaths, p)
+		}
+		sort.Strings(diskPaths)
+		for _, p := range diskPaths {
 			if _, ok := be.byPath[p]; !ok && !pre[p] {
 				return fail("foreign-path", "unexpected file %s", p)
 			}
